@@ -107,7 +107,10 @@ def handleEc (P : ECParams) (op : String) (a : List String) : String :=
   | "ECV", [h, qx, qy, sig, msg, oin, oout] | "ECVB", [h, qx, qy, sig, msg, oin, oout] =>
     match mkHash h P.mimcSize P.mimcQ oin oout with
     | none => "bad-op"
-    | some H => verdict (P.verify P.smulFast H (ECParams.ofAffine (parseHexD qx) (parseHexD qy)) (parseBytes sig) (parseBytes msg))
+    | some H =>
+      let Q := ECParams.ofAffine (parseHexD qx) (parseHexD qy)
+      if Q.isNone then "err:pkinfinity" else
+      verdict (P.verify P.smulFast H Q (parseBytes sig) (parseBytes msg))
   | "ECVINF", [h, qx, qy, sig, msg, oin, oout] =>
     let Q := ECParams.ofAffine (parseHexD qx) (parseHexD qy)
     if Q.isNone then "err:pkinfinity" else
@@ -115,7 +118,7 @@ def handleEc (P : ECParams) (op : String) (a : List String) : String :=
     | none => "bad-op"
     | some H => verdict (P.verify P.smulFast H Q (parseBytes sig) (parseBytes msg))
   | "ECPK", [b] | "ECPKT", [b] =>
-    match P.pkParse P.smulFast (parseBytes b) with
+    match P.pubParse P.smulFast (parseBytes b) with
     | .error e => e.str
     | .ok Q => showAff Q ++ " " ++ bytesToHex (P.pkBytes Q)
   | "ECPKN", [b] =>
